@@ -224,6 +224,7 @@ theorem PhaseEv_start {n : Nat} {as : List Action} (t s : Nat) {L : Nat} (op : O
   | itNext it => exact NoOwnChange.nil _ _ _ _
   | itClose it => exact NoOwnChange.nil _ _ _ _
   | itInterval it m => exact NoOwnChange.nil _ _ _ _
+  | itRefresh it => exact NoOwnChange.nil _ _ _ _
 
 /-! ### what a completed call guarantees -/
 
